@@ -15,7 +15,9 @@ Tie        : correspondence
 Oracle /   : implementation only (independent reader: json + fastavro + pyarrow; no model):
 search       random histories {append (3 path spellings), multi-op txn, delete_files, expire, delete_snapshot,
              open / commit / roll back transactions, planted orphans, collect(grace)} x table-location spellings
-             x grace {0, 3600000, 10^12} x mtimes on both sides of the cutoff; after each collect:
+             (local: absolute, relative via chdir, "./x", trailing "/", "//", symlink, names d / da / data / m / metadata / ...;
+             simulated table_path strings; S3: DATASHARD_S3_PREFIX x table_path through the real S3StorageBackend over an
+             in-memory client) x grace {0, 3600000, 10^12} x mtimes on both sides of the cutoff; after each collect:
              deleted & (reachable | registered) = {}, every retained snapshot fully re-read, old orphans gone,
              no abort on an undamaged table.  Failing histories are shrunk (ops removed one at a time).
 """
@@ -32,7 +34,7 @@ import time
 import traceback
 from typing import Any, Dict, List, Optional, Tuple
 
-from harness.lib import coqbuild, gcsim
+from harness.lib import coqbuild, gcs3, gcsim
 from harness.lib.coqio import Nat, to_coq
 
 LEVEL = "proof"
@@ -47,17 +49,20 @@ MANIFEST_ENTRY = {
                   "regenerated from the source on every run; the hand-written model is tied to the code by differential execution "
                   "of every collection of every generated history (outcome, exact deleted set, keep sets, storage-call trace); "
                   "implementation-only oracles with an independent reader search for a failing history",
-    "level_note": "trusted: Coq kernel; translator/gen_norm.py; wf_store (writer-side path forms: data files under data/, "
+    "level_note": "trusted: Coq kernel; translator/gen_norm.py; harness/lib/gcs3.py (in-memory S3 client under the real S3StorageBackend); wf_store (writer-side path forms: data files under data/, "
                   "lists and manifests under metadata/, marker naming) proved invariant of the model's writers and checked on every "
                   "real directory; metadata_manager.refresh() is an input of the model (pointer / metadata damage: C10, C14); one "
-                  "clock value per collection; transactions younger than the 24 h marker abandonment window; S3 prefix spellings "
-                  "only via simulated table_path strings (no fake S3 client in this check); the harness runs the code faithfully",
+                  "clock value per collection; transactions younger than the 24 h marker abandonment window; S3 spellings run the real "
+                  "S3StorageBackend over an in-memory client (collections only: the table is written locally and uploaded); "
+                  "the harness runs the code faithfully",
     "technique": "Coq proof over translator-regenerated path kernel + call-level differential correspondence + history fuzzing",
     "design_ref": "DESIGN.md section 5 C05",
 }
 
 GRACES = [0, 3600000, 10 ** 12]
 REAL_SPELLINGS = ["abs", "rel", "dot", "trail", "dslash", "symlink", "d", "da", "dat", "data", "m", "me", "metadata", "datax", "t/data"]
+S3_SPELLINGS = [("", "data"), ("", "d"), ("", "da"), ("", "metadata"), ("", "m"), ("", "/data"), ("", "data/"), ("data", "t"), ("d", "ata"),
+                ("wh", "data"), ("wh/", "/data/"), ("data", ""), ("", "logs/data"), ("", "datax"), ("metadata", "manifests"), ("", "tbl")]
 SIM_SPELLINGS = ["sim:/data", "sim:/metadata", "sim:/", "sim:", "sim:/data/", "sim:data/", "sim:/d", "sim:s3-bucket-prefix/data"]
 
 
@@ -67,7 +72,7 @@ def gen_ops(rng: random.Random, n: int, final_grace: int) -> List[Dict[str, Any]
     for _ in range(n - 2):
         r = rng.random()
         if r < 0.28:
-            ops.append({"op": "append", "spell": rng.choice([0, 0, 1, 2])})
+            ops.append({"op": "append", "spell": rng.choice([0, 0, 0, 1, 2, 1, 2, 3, 4])})
         elif r < 0.38:
             ops.append({"op": "multi", "appends": rng.choice([1, 2]), "delete": rng.choice([None, rng.randrange(8)])})
         elif r < 0.50:
@@ -92,6 +97,8 @@ def locate(base: str, spelling: str) -> Tuple[str, str, Optional[str], Optional[
     """-> (table_path to create/open, real root, cwd to enter or None, table_path override for the collector)."""
     if spelling.startswith("sim:"):
         return os.path.join(base, "tbl"), os.path.join(base, "tbl"), None, spelling[4:]
+    if spelling.startswith("s3:"):
+        return os.path.join(base, "tbl"), os.path.join(base, "tbl"), None, None
     if spelling == "abs":
         return os.path.join(base, "tbl"), os.path.join(base, "tbl"), None, None
     if spelling == "trail":
@@ -116,8 +123,10 @@ def _schema():
 
 
 def _spell(path: str, spell: int) -> str:
+    """0..2: the canonical spellings of one file; 3, 4: spellings that only a filesystem identifies with it."""
     rel = path.lstrip("/")
-    return ["/" + rel, rel, "//" + rel][spell]
+    d, _, name = rel.rpartition("/")
+    return ["/" + rel, rel, "//" + rel, f"{d}//{name}", f"{d}/./{name}"][spell]
 
 
 def exec_history(case: Dict[str, Any]) -> Dict[str, Any]:
@@ -146,8 +155,13 @@ def exec_history(case: Dict[str, Any]) -> Dict[str, Any]:
                     tx = t.new_transaction().begin()
                     tx.append_data([{"x": next(counter)}])
                     if op["spell"]:
-                        files = tx._operations[-1]["files"]
-                        files[0] = dataclasses.replace(files[0], file_path=_spell(files[0].file_path, op["spell"]))
+                        # the same file handed to the public append_files() under another spelling of its path
+                        files = tx._operations.pop()["files"]
+                        try:
+                            tx.append_files([dataclasses.replace(files[0], file_path=_spell(files[0].file_path, op["spell"]))])
+                        except Exception:
+                            tx.rollback()
+                            raise
                     tx.commit()
                 elif kind == "multi":
                     tx = t.new_transaction().begin()
@@ -162,7 +176,7 @@ def exec_history(case: Dict[str, Any]) -> Dict[str, Any]:
                     cur = _current_files(reader)
                     if cur:
                         tx = t.new_transaction().begin()
-                        tx.delete_files([_spell(cur[op["idx"] % len(cur)], op["spell"])])
+                        tx.delete_files([_spell(cur[op["idx"] % len(cur)], op["spell"]) if op["spell"] else cur[op["idx"] % len(cur)]])
                         tx.commit()
                 elif kind == "expire":
                     snaps = reader.snapshots()
@@ -194,7 +208,8 @@ def exec_history(case: Dict[str, Any]) -> Dict[str, Any]:
                             _plant(root, f"metadata/manifests/{name}.avro", b"not avro")
                 elif kind == "collect":
                     registered = sorted({k for _tx, w in open_txs for k in w})
-                    res = do_collect(t, reader, root, override if override is not None else tp, override, op["grace"], op["ages"], registered)
+                    s3spec = tuple(case["spelling"][3:].split("|", 1)) if case["spelling"].startswith("s3:") else None
+                    res = do_collect(t, reader, root, override if override is not None else tp, override, op["grace"], op["ages"], registered, s3spec)
                     res["op_index"] = opi
                     out["stats"]["collects"] += 1
                     out["stats"]["deleted"] += len(res["deleted"])
@@ -235,7 +250,7 @@ def _plant(root: str, key: str, content: bytes) -> None:
 
 
 def do_collect(t: Any, reader: gcsim.IndepReader, root: str, tp_seen: str, override: Optional[str], grace: int, ages_seed: int,
-               registered: List[str]) -> Dict[str, Any]:
+               registered: List[str], s3spec: Optional[Tuple[str, str]] = None) -> Dict[str, Any]:
     """Age the files, judge one real collection with the independent oracle, and record the case for the model."""
     now = float(int(time.time()))
     arng = random.Random(ages_seed)
@@ -247,13 +262,28 @@ def do_collect(t: Any, reader: gcsim.IndepReader, root: str, tp_seen: str, overr
             ts = now - grace / 1000.0 + (-100.0 if old else 100.0)
             os.utime(os.path.join(real_root, key), (ts, ts))
             (old_keys if old else young_keys).add(key)
-    before = gcsim.list_tree(root)
     reach = reader.reachable()
     live = reader.live_protected(now, TIMEOUT_MS)
     snaps = [s.get("manifest_list") or "" for s in reader.snapshots()]
     store = gcsim.store_term(root)
-    real = gcsim.run_collect(t, grace, now, None, override)
-    after = gcsim.list_tree(root)
+    if s3spec is None:
+        before = gcsim.list_tree(root)
+        real = gcsim.run_collect(t, grace, now, None, override)
+        after = gcsim.list_tree(root)
+        problems_after = None
+    else:
+        # the same table as objects of an (in-memory) S3 bucket, collected through the real S3StorageBackend built by
+        # create_storage_backend from (DATASHARD_S3_PREFIX, table_path); the local directory is left as it is
+        env_prefix, s3_tp = s3spec
+        fake = gcs3.FakeS3()
+        pre = gcs3.expected_prefix(env_prefix, s3_tp)
+        gcs3.upload_tree(fake, root, pre)
+        before = gcs3.tree_of(fake, pre)
+        ts = gcs3.open_s3_table(env_prefix, s3_tp, fake)
+        tp_seen = s3_tp
+        real = gcsim.run_collect(ts, grace, now, None, None)
+        after = gcs3.tree_of(fake, pre)
+        problems_after = [f"object {k} of a retained snapshot is gone" for k in sorted(reach) if k not in after]
     deleted = sorted(set(before) - set(after))
     deleted_files = [k for k in deleted if not k.startswith(gcsim.INFLIGHT + "/")]
     protected = set(reach) | set(live) | set(registered)
@@ -264,7 +294,7 @@ def do_collect(t: Any, reader: gcsim.IndepReader, root: str, tp_seen: str, overr
     if lost:
         cls = "reachable" if set(lost) & set(reach) else "registered-by-live-transaction"
         viol.append({"key": f"deleted-live:{cls}", "what": f"collect(grace={grace}) at table location {tp_seen!r} deleted {len(lost)} file(s) that are {cls}: {lost[:4]}"})
-    _rows, problems = reader.read_everything()
+    _rows, problems = reader.read_everything() if problems_after is None else (0, problems_after)
     if problems:
         viol.append({"key": "snapshot-unreadable", "what": f"after collect(grace={grace}) at {tp_seen!r} a retained snapshot is no longer fully readable: {problems[:3]}"})
     if not real["raised"]:
@@ -304,11 +334,11 @@ def make_cases(ctx) -> List[Dict[str, Any]]:
     rng = ctx.rng
     cases = []
     quick = ctx.tier == "quick"
-    reps = 6 if quick else 60
+    reps = 3 if quick else 30
     maxlen = 12 if quick else 30
     n = 0
     for rep in range(reps):
-        for sp in REAL_SPELLINGS + SIM_SPELLINGS:
+        for sp in REAL_SPELLINGS + SIM_SPELLINGS + [f"s3:{e}|{t}" for e, t in S3_SPELLINGS]:
             for g in (GRACES if (quick and sp in REAL_SPELLINGS) or not quick else [rng.choice(GRACES)]):
                 seed = rng.randrange(1 << 40)
                 r = random.Random(seed)
@@ -353,10 +383,15 @@ def run_histories(ctx) -> None:
     if recs:
         case, c = recs[0]
         ctx.sample({"history": {"spelling": case["spelling"], "ops": [o["op"] for o in case["ops"]], "final_collect": {"grace": c["grace"], "deleted": c["deleted"], "reachable": c["n_reach"], "protected_live": c["n_live"]}}})
-    # correspondence: the same collections through the Coq model
+    # correspondence: the same collections through the Coq model (thorough: a seeded sample, the oracle judged all of them)
+    cap = 1000
+    if len(recs) > cap:
+        keep = sorted(ctx.rng.sample(range(len(recs)), cap))
+        recs = [recs[i] for i in keep]
+        exprs = [exprs[i] for i in keep]
+    ctx.stats["histories"]["collections_compared_with_model"] = len(recs)
     try:
-        ch = max(4, len(exprs) // 15 + 1)
-        both = coqbuild.coq_eval(REQ, exprs, chunk=ch)
+        both = coqbuild.coq_eval(REQ, exprs, chunk=gcsim.chunk_for(len(exprs)), timeout=2400)
         got, wf = [b[:-1] if len(b) > 2 else b[0] for b in both], [b[-1] for b in both]
     except RuntimeError as e:
         ctx.proof_problems.append("model evaluation failed: " + str(e)[:600])
